@@ -511,8 +511,15 @@ class DPTComplex(DPTBase, Generic[_ComplexDataT]):
         """Serialize to KNX/IP raw data."""
         try:
             if isinstance(value, cls.data_type):
-                return cls._to_knx(value)
-            return cls._to_knx(cls.data_type.from_dict(value))  # type: ignore[arg-type]
+                payload = cls._to_knx(value)
+            else:
+                payload = cls._to_knx(cls.data_type.from_dict(value))  # type: ignore[arg-type]
+            if isinstance(payload, DPTArray) and not all(
+                isinstance(octet, int) for octet in payload.value
+            ):
+                # DPTArray only checks the range of integers - eg. a float field
+                raise ValueError("Value can not be represented by octets")
+            return payload
         except (
             ValueError,
             TypeError,
